@@ -79,7 +79,20 @@ func c16Clobber(ctx *rt.Ctx, c c16Case) string {
 		}
 		db.Close()
 	case "symlink-dangling":
-		os.Symlink(filepath.Join(dir, "nowhere", "x.updog"), out)
+		// the link points to a name that does not exist in a directory that does (a create through the link would succeed)
+		os.Symlink(filepath.Join(dir, "missing-target.updog"), out)
+	case "index-same-shape":
+		// a valid index with the same number of rows and the same schema as what the writer is about to write, but the
+		// rows in another order (so: other bitmaps). "Looks like my output already" is no licence to report success.
+		rows := c16Rows(c.Rows)
+		for i, j := 0, len(rows)-1; i < j; i, j = i+1, j-1 {
+			rows[i], rows[j] = rows[j], rows[i]
+		}
+		p, _, err := ix.Build(dir, rows, ix.MemFile)
+		if err != nil {
+			rt.Harnessf("build: %v", err)
+		}
+		os.Rename(p, out)
 	case "symlink-to-index":
 		p, _, err := ix.Build(dir, c16Rows(5), ix.MemFile)
 		if err != nil {
@@ -102,7 +115,7 @@ func c16Clobber(ctx *rt.Ctx, c c16Case) string {
 	}
 	linkState := func() string {
 		l, _ := os.Readlink(out)
-		_, err := os.Stat(filepath.Join(dir, "nowhere", "x.updog"))
+		_, err := os.Lstat(filepath.Join(dir, "missing-target.updog"))
 		return fmt.Sprintf("%s->%s/%v/%s", fileState(out), l, os.IsNotExist(err), fileState(filepath.Join(dir, "real.updog")))
 	}
 	before := fileState(out)
@@ -358,7 +371,7 @@ func c16Worker(ctx *rt.Ctx, job *rt.Job) []*rt.Violation {
 
 func c16Run(ctx *rt.Ctx) []*rt.Violation {
 	var vs []*rt.Violation
-	for _, ex := range []string{"empty", "index", "bytes", "index-readonly", "bbolt-empty-db", "bbolt-other-db", "symlink-dangling", "symlink-to-index", "appears"} {
+	for _, ex := range []string{"empty", "index", "bytes", "index-readonly", "bbolt-empty-db", "bbolt-other-db", "symlink-dangling", "symlink-to-index", "index-same-shape", "appears"} {
 		for _, rows := range []int{0, 3, 1500} {
 			for _, via := range []string{"flush", "create", "create-big"} {
 				if ex == "appears" && via != "flush" {
@@ -388,7 +401,7 @@ func c16Run(ctx *rt.Ctx) []*rt.Violation {
 	}
 	outs := rt.RunJobs(ctx, jobs, rt.SpawnOpt{})
 	vs = append(vs, rt.Collect(ctx, outs, nil)...)
-	ctx.Cov.Note("rule", fmt.Sprintf("clobber: 8 pre-existing contents (empty, valid index, arbitrary bytes, read-only index, bbolt database without buckets, bbolt database with a foreign bucket, dangling symlink, symlink to an index) x 3 writer sizes x {IndexWriter.Flush, updog create, updog create -b}: must fail and leave SHA-256/size/mode (and link target) unchanged; 'appears': for every write k of Flush another actor exclusively creates the output path at that moment - if it succeeds Flush must fail and leave that file alone; read: every enabled history up to depth %d over {4 open variants, 4 queries, GetSchema, Close} on copies of valid 1200-row indexes written by each of the three writer paths: SHA-256/size/mode compared after every step; non-trivial = clobber cases and read histories of length >= 3", depth))
+	ctx.Cov.Note("rule", fmt.Sprintf("clobber: 9 pre-existing contents (empty, valid index, a valid index with the row count and schema of the new one but other bitmaps, arbitrary bytes, read-only index, bbolt database without buckets, bbolt database with a foreign bucket, dangling symlink into an existing directory, symlink to an index) x 3 writer sizes x {IndexWriter.Flush, updog create, updog create -b}: must fail and leave SHA-256/size/mode (and link target) unchanged; 'appears': for every write k of Flush another actor exclusively creates the output path at that moment - if it succeeds Flush must fail and leave that file alone; read: every enabled history up to depth %d over {4 open variants, 4 queries, GetSchema, Close} on copies of valid 1200-row indexes written by each of the three writer paths: SHA-256/size/mode compared after every step; non-trivial = clobber cases and read histories of length >= 3", depth))
 	return vs
 }
 
